@@ -29,6 +29,7 @@ type c15World struct {
 	conn net.Conn
 	sock int32 // socket id of the current client (from the CONNECT job)
 	seen int   // jobs of a.JobQueue already consumed
+	pf   *c15pf
 }
 
 func (w *c15World) dispatch(cmd uint32, bodyb []byte) {
@@ -89,6 +90,13 @@ func sockOf(j agent.Job) (int32, bool) {
 }
 
 func (w *c15World) line(c *Ctx, in string) {
+	if strings.HasPrefix(in, "pf") { // the port-forward half has a world of its own (c15pf.go)
+		if w.pf == nil {
+			w.pf = &c15pf{}
+		}
+		w.pf.line(c, in)
+		return
+	}
 	c.Pending(in)
 	parts := strings.Fields(in)
 	switch parts[0] {
@@ -257,6 +265,49 @@ func runC15(c *Ctx) {
 	}
 	r := c.R
 	for c.Lines < c.N {
+		if r.Chance(1, 5) { // reverse port forwards: targets that are up, down, or come up later; data both ways; removal
+			w.line(c, "pfreset")
+			sids := []int{1 + r.Intn(50), 100 + r.Intn(50), 300 + r.Intn(50)}[:1+r.Intn(3)]
+			up := map[int]bool{}
+			opened := map[int]bool{}
+			for k := 0; k < 4+r.Intn(8); k++ {
+				sid := gen.Pick(r, sids)
+				switch j := r.Intn(10); {
+				case j < 2 || !opened[sid]:
+					u := r.Chance(2, 3)
+					if opened[sid] {
+						u = up[sid]
+					}
+					up[sid] = up[sid] || u
+					opened[sid] = true
+					c.Count("pf.open")
+					w.line(c, fmt.Sprintf("pfopen %d %d", sid, map[bool]int{false: 0, true: 1}[up[sid]]))
+				case j < 6:
+					c.Count("pf.read")
+					w.line(c, fmt.Sprintf("pfread %d %s", sid, hx(r.Bytes(1+r.Intn(40)))))
+				case j < 7:
+					if !up[sid] {
+						up[sid] = true
+						c.Count("pf.up")
+						w.line(c, fmt.Sprintf("pfup %d", sid))
+					}
+				case j < 8:
+					c.Count("pf.reply")
+					w.line(c, fmt.Sprintf("pfreply %d %s", sid, hx(r.Bytes(1+r.Intn(30)))))
+				case j < 9:
+					c.Count("pf.remove")
+					w.line(c, fmt.Sprintf("pfremove %d", sid))
+					opened[sid] = false
+				default:
+					c.Count("pf.read-unknown")
+					w.line(c, fmt.Sprintf("pfread %d %s", 9000+r.Intn(9), hx(r.Bytes(3))))
+				}
+			}
+			for _, sid := range sids {
+				w.line(c, fmt.Sprintf("pfremove %d", sid))
+			}
+			continue
+		}
 		w.line(c, "reset")
 		if r.Chance(1, 6) { // operator commands: add / list / kill / clear over 0-3 proxies
 			var mine []int
